@@ -191,7 +191,7 @@ def _race(leave_kind, interleaving):
             pb.update(1)
             fired = pb._timer
             fired.armed = False
-            if interleaving in ('callback-first', 'callback-at-rearm'):
+            if interleaving in ('callback-first', 'callback-at-rearm', 'callback-before-lock'):
                 go, done = threading.Event(), threading.Event()
 
                 def hook():
@@ -199,8 +199,30 @@ def _race(leave_kind, interleaving):
                     done.wait(0.5)
                 if interleaving == 'callback-first':
                     ScriptedTimer.hook = hook              # the callback pauses inside its cancel()
-                else:
+                elif interleaving == 'callback-at-rearm':
                     ScriptedTimer.ctor_hook = hook         # ... or when it creates the next timer (just before start())
+                else:
+                    # ... or just before it takes the bar's lock (after whatever it checked without the lock)
+                    real_lock = pb._lock
+
+                    class PausingLock:
+                        armed = True
+
+                        def __enter__(self_):
+                            if PausingLock.armed and threading.current_thread() is not threading.main_thread():
+                                PausingLock.armed = False
+                                hook()
+                            return real_lock.__enter__()
+
+                        def __exit__(self_, *a):
+                            return real_lock.__exit__(*a)
+
+                        def acquire(self_, *a, **k):
+                            return real_lock.acquire(*a, **k)
+
+                        def release(self_):
+                            return real_lock.release()
+                    pb._lock = PausingLock()
                 cb = threading.Thread(target=fired.fn)
                 cb.start()
                 go.wait(2.0)
@@ -230,7 +252,7 @@ _old_timer_race = timer_race
 def timer_race(inp):
     bad = []
     for kind in ('exit', 'context-normal', 'context-exception'):
-        for inter in ('callback-first', 'callback-at-rearm', 'caller-first'):
+        for inter in ('callback-first', 'callback-at-rearm', 'callback-before-lock', 'caller-first'):
             n = _race(kind, inter)
             if n:
                 bad.append({'caller_leaves_by': kind, 'interleaving': inter, 'armed_timers_after_the_caller_left': n})
